@@ -6,8 +6,7 @@ toolchain go1.23.1
 
 require (
 	github.com/google/uuid v1.6.0
+	github.com/gorilla/securecookie v1.1.2
 	github.com/gorilla/sessions v1.3.0
 	golang.org/x/time v0.7.0
 )
-
-require github.com/gorilla/securecookie v1.1.2 // indirect
